@@ -237,7 +237,7 @@ func runC06(c *Ctx) {
 				if leaf == ssa.Value(total) {
 					ok = true
 				}
-				if bo, isB := leaf.(*ssa.BinOp); isB && bo.Op == token.ADD && stripConv(bo.X) == ssa.Value(total) {
+				if bo, isB := leaf.(*ssa.BinOp); isB && bo.Op == token.ADD && (stripConv(bo.X) == ssa.Value(total) || stripConv(bo.Y) == ssa.Value(total)) {
 					ok = true
 				}
 			}
@@ -363,8 +363,10 @@ func checkReassembly(c *Ctx, fn *ssa.Function, bParam *ssa.Parameter, total *ssa
 		// total' = total + n
 		adv := false
 		for _, e := range total.Edges {
-			if bo, ok := stripConv(e).(*ssa.BinOp); ok && bo.Op == token.ADD && isTotal(bo.X) && stripConv(bo.Y) == ssa.Value(call) {
-				adv = true
+			if bo, ok := stripConv(e).(*ssa.BinOp); ok && bo.Op == token.ADD {
+				if _, other, ok := operandsWhere(bo, isTotal); ok && stripConv(other) == ssa.Value(call) {
+					adv = true
+				}
 			}
 		}
 		c.check(adv, fn, "advance", in.Pos(), "the total advances by exactly the count copied", "the running total does not advance by exactly the number of bytes copied: the reported length differs from the payload length and the next fragment lands at a wrong offset")
@@ -401,8 +403,10 @@ func checkReassemblyAsync(c *Ctx, cf *ssa.Function, bCell, total, cont, mtype *s
 			if !ok || st.Addr != ssa.Value(total) {
 				return
 			}
-			if bo, ok := stripConv(st.Val).(*ssa.BinOp); ok && bo.Op == token.ADD && isLoad(bo.X, total) && stripConv(bo.Y) == ssa.Value(call) {
-				adv = true
+			if bo, ok := stripConv(st.Val).(*ssa.BinOp); ok && bo.Op == token.ADD {
+				if _, other, ok := operandsWhere(bo, func(v ssa.Value) bool { return isLoad(v, total) }); ok && stripConv(other) == ssa.Value(call) {
+					adv = true
+				}
 			}
 		})
 		c.check(adv, cf, "advance", in.Pos(), "the total advances by exactly the count copied", "the running total does not advance by exactly the number of bytes copied")
